@@ -178,7 +178,40 @@ func (c *Ctx) ruleRegexExampleProbed(rule string) {
 				return true
 			})
 			if len(sets) == 0 {
-				return true
+				// the schema may be made by a helper and stored by its caller: then the returns of the helper that hand
+				// the schema out are what the probe has to come before
+				feeds := false
+				if sites, _ := c.callersOf(f); len(sites) > 0 {
+					for _, cs := range sites {
+						ast.Inspect(cs.g.Decl.Body, func(m ast.Node) bool {
+							if call, ok := m.(*ast.CallExpr); ok && call.Pos() > cs.call.Pos() {
+								if cal := callee(cs.g.Pkg, call); cal != nil && cal.Name() == "Set" && len(call.Args) == 2 {
+									if sel, ok := ast.Unparen(call.Fun).(*ast.SelectorExpr); ok && strings.HasSuffix(namedType(cs.g.Pkg.TypesInfo.TypeOf(sel.X)), "catalog.UserSchemas") {
+										feeds = true
+									}
+								}
+							}
+							return true
+						})
+					}
+				}
+				if !feeds {
+					return true
+				}
+				ast.Inspect(f.Decl.Body, func(m ast.Node) bool {
+					if _, isLit := m.(*ast.FuncLit); isLit {
+						return false
+					}
+					if ret, ok := m.(*ast.ReturnStmt); ok && ret.Pos() > mk.Pos() && len(ret.Results) >= 1 && !isNil(f.Pkg, ret.Results[0]) {
+						if d := ast.Unparen(unalias(f, ret.Results[0])); d == ast.Expr(mk) || func() bool { dc, _ := definingCall(f, ret.Results[0]); return dc == mk }() {
+							sets = append(sets, ret)
+						}
+					}
+					return true
+				})
+				if len(sets) == 0 {
+					return true
+				}
 			}
 			n++
 			var probeCalls []ast.Node
